@@ -30,11 +30,45 @@ Section GenLitStr.
   Definition gen_lit_str (s : str) : str := 34 :: gen_body s ++ [34].
 End GenLitStr.
 
-Definition escape_html_body (s : str) : str :=
-  flat_map (fun c => if c =? 60 then [38;108;116;59]            (* &lt; *)
-                     else if c =? 34 then [38;113;117;111;116;59] (* &quot; *)
-                     else if c =? 38 then [38;97;109;112;59]      (* &amp; *)
-                     else [c]) s.
+(* escape_html_body: less-than, double quote and ampersand become entities, and every left brace
+   that is followed by another left brace is written as a numeric entity, so that no double left
+   brace is printed (the implementation does this in two passes; the result is the same because
+   the entities neither contain nor end with a left brace) *)
+Definition e_lt : str := [38;108;116;59].
+Definition e_quot : str := [38;113;117;111;116;59].
+Definition e_amp : str := [38;97;109;112;59].
+Definition e_lbrace : str := [38;35;49;50;51;59].
+
+Definition next_is_lbrace (r : str) : bool := match r with 123 :: _ => true | _ => false end.
+
+Fixpoint escape_html_body (s : str) : str :=
+  match s with
+  | [] => []
+  | c :: r =>
+      (if c =? 60 then e_lt
+       else if c =? 34 then e_quot
+       else if c =? 38 then e_amp
+       else if (c =? 123) && next_is_lbrace r then e_lbrace
+       else [c]) ++ escape_html_body r
+  end.
+
+(* what the template parser reads back from such text (entity decoding of the four entities) *)
+Fixpoint unescape_html (s : str) : str :=
+  match s with
+  | 38 :: 108 :: 116 :: 59 :: r => 60 :: unescape_html r
+  | 38 :: 113 :: 117 :: 111 :: 116 :: 59 :: r => 34 :: unescape_html r
+  | 38 :: 97 :: 109 :: 112 :: 59 :: r => 38 :: unescape_html r
+  | 38 :: 35 :: 49 :: 50 :: 51 :: 59 :: r => 123 :: unescape_html r
+  | c :: r => c :: unescape_html r
+  | [] => []
+  end.
+
+Fixpoint has_double_lbrace (s : str) : bool :=
+  match s with
+  | 123 :: ((123 :: _) as r) => true
+  | _ :: r => has_double_lbrace r
+  | [] => false
+  end.
 
 Definition escape_html_quote (s : str) : str :=
   flat_map (fun c => if c =? 34 then [38;113;117;111;116;59]
